@@ -189,6 +189,16 @@ def fan_cfg(rng, alg):
                     "rate": 1, "wf": {"nodes": nodes, "edges": edges}})
     cfg = {"machines": machines, "arrays": 2, "maxIngest": 1, "hotCap": 60, "coldCap": 20, "hotRate": 3,
            "coldRate": 2, "obs": obs, "alg": alg, "parts": 1, "minPer": 1}
+    if len(machines) >= 2 and len(obs) >= 2 and rng.random() < 0.4:
+        # a single array handed from one observation to the next in the very step
+        # the first one ends (enough ingest machines: only the array is contended)
+        cfg["arrays"], cfg["maxIngest"] = 1, 2
+        # ... and machines to spare, so that a free one exists at the hand-over
+        cfg["machines"] = machines + [{"id": f"m{len(machines) + i}", "cpu": 1, "bw": 1} for i in range(8)]
+        t = rng.randint(0, 1)
+        for o in obs:
+            o["est"] = t
+            t += o["dur"]
     if alg in ("plan", "greedy"):
         cfg["plan"] = gen.static_plan(cfg, rng)
         if rng.random() < 0.6:          # equal est: ties decided by set order
